@@ -392,47 +392,188 @@ def r4_exit_status(ctx):
 
 
 # ---------------------------------------------------------------------------
+def _val_reach(g, starts, val, be, stop=(), strict=True):
+    """nodes reachable along normal edges when the atoms have the values `val`: branches whose test evaluates to the other polarity are pruned.
+    Boolean locals assigned from atom expressions (`is_selected = not example.is_disabled()`) are carried along the path.  In strict mode a test
+    that cannot be evaluated is an analysis error; otherwise it does not prune."""
+    from collections import deque
+    stop = set(id(x) for x in stop)
+    seen = set()
+    out = {}
+    work = deque((s_, ()) for s_ in starts)
+    while work:
+        n, envt = work.popleft()
+        if (id(n), envt) in seen:
+            continue
+        seen.add((id(n), envt))
+        out[id(n)] = n
+        if id(n) in stop:
+            continue
+        env = dict(envt)
+        if n.kind == 'stmt' and isinstance(n.ast, ast.Assign) and len(n.ast.targets) == 1 and isinstance(n.ast.targets[0], ast.Name):
+            nm = n.ast.targets[0].id
+            try:
+                env[nm] = be.eval(n.ast.value, dict(val, **{'@' + k: v for k, v in env.items()}))
+            except AnalysisError:
+                env.pop(nm, None)
+        nenvt = tuple(sorted(env.items()))
+        for (t, kind, tok) in n.succ:
+            if kind != 'n':
+                continue
+            if t.kind == 'branch' and t.attrs['test'].kind == 'test' and t.attrs['polarity'] in (True, False):
+                try:
+                    tr = be.eval(t.attrs['test'].ast, dict(val, **{'@' + k: v for k, v in env.items()}))
+                except AnalysisError:
+                    if strict:
+                        raise
+                    tr = None
+                if tr is not None and tr != t.attrs['polarity']:
+                    continue
+            work.append((t, nenvt))
+    return list(out.values())
+
+
+def _selection_atoms(names, ex, false_names=()):
+    """atoms of the gathering decision in a host function: names = {'G': <name of the all/dump flag>, 'command': <name>}"""
+    def atom_of(e):
+        if isinstance(e, ast.Name) and e.id == names.get('G'):
+            return ('G', True)
+        if isinstance(e, ast.Compare) and len(e.ops) == 1 and isinstance(e.ops[0], (ast.In, ast.NotIn)) and is_name(e.left, names.get('command')):
+            c = e.comparators[0]
+            if isinstance(c, ast.Attribute) and c.attr == 'valid_testnames' and is_name(c.value, ex):
+                return ('N', isinstance(e.ops[0], ast.In))
+            if isinstance(c, ast.Name) and c.id in false_names:
+                return ('FALSE', isinstance(e.ops[0], ast.In))
+        if isinstance(e, ast.Call) and isinstance(e.func, ast.Attribute) and e.func.attr == 'is_disabled' and is_name(e.func.value, ex) and not e.args and not e.keywords:
+            return ('D', True)
+        if isinstance(e, ast.Name):
+            return ('@' + e.id, True)
+        return None
+    return atom_of
+
+
+class _PathBool(BoolEval):
+    def eval(self, e, val, depth=0):
+        if isinstance(e, ast.Name):
+            a = self.atom_of(e)
+            if a is not None and a[0] not in val:
+                raise AnalysisError('unrecognised boolean atom: %s' % e.id)
+        return BoolEval.eval(self, e, val, depth)
+
+
+def _comp_over(e, src_name):
+    """(comprehension, element variable) when e is [x for x in <src_name> if ...] / list(...) / a generator over src_name yielding its elements"""
+    if isinstance(e, ast.Call) and is_name(e.func, 'list') and len(e.args) == 1:
+        e = e.args[0]
+    if isinstance(e, (ast.ListComp, ast.GeneratorExp)) and len(e.generators) == 1 and is_name(e.generators[0].iter, src_name) \
+            and isinstance(e.generators[0].target, ast.Name) and is_name(e.elt, e.generators[0].target.id):
+        return e, e.generators[0].target.id
+    return None, None
+
+
+def _gathering_model(ctx, f, g):
+    """how doctest_module decides which collected examples run: returns gathered(val) for val over G (all|dump), N (named), D (disabled),
+    and a location for the report.  Recognised forms: a loop over `examples` that appends; one or more comprehensions over `examples` stored in
+    `enabled_examples`; either of them inside one helper of runner.py that is handed `examples`."""
+    def model_in(host, hg, names, src_name, false_names, strict_all):
+        sites = []
+        # (a) append inside a loop over the source list
+        apps = [n for n in hg.nodes if n.kind == 'stmt' and not n.dup and any(isinstance(c.func, ast.Attribute) and c.func.attr == 'append' for c in node_calls(n))
+                and any(fr.kind == 'loop' and is_name(fr.stmt.iter, src_name) for fr in n.frames)]
+        for a_ in apps:
+            lf = [fr for fr in a_.frames if fr.kind == 'loop' and is_name(fr.stmt.iter, src_name)][-1]
+            c = [c for c in node_calls(a_) if isinstance(c.func, ast.Attribute) and c.func.attr == 'append'][0]
+            if isinstance(lf.stmt.target, ast.Name) and c.args and is_name(c.args[0], lf.stmt.target.id):
+                sites.append(('append', a_, lf.head, lf.stmt.target.id))
+        # (b) comprehensions over the source list (assigned, returned or extended with)
+        for n in hg.nodes:
+            if n.kind != 'stmt' or n.dup:
+                continue
+            cands = []
+            if isinstance(n.ast, (ast.Assign, ast.Return)) and n.ast.value is not None:
+                cands.append(n.ast.value)
+            for c in node_calls(n):
+                if isinstance(c.func, ast.Attribute) and c.func.attr == 'extend' and len(c.args) == 1:
+                    cands.append(c.args[0])
+            for v in cands:
+                comp, ex_ = _comp_over(v, src_name)
+                if comp is not None:
+                    sites.append(('comp', n, comp, ex_))
+        return sites
+
+    def gathered_in(host, hg, sites, names, false_names, val, strict_all):
+        got = False
+        for st in sites:
+            be = _PathBool(_selection_atoms(names, st[3], false_names))
+            v = dict(val, FALSE=False)
+            if st[0] == 'append':
+                _, a_, head, ex_ = st
+                if not any(x is head for x in _val_reach(hg, [hg.entry], v, be, strict=strict_all)):
+                    continue
+                entry, cut = graph.region_of_loop(hg, head)
+                if any(x is a_ for x in _val_reach(hg, [entry], v, be, stop=[head], strict=True)):
+                    got = True
+            else:
+                _, n, comp, ex_ = st
+                if not any(x is n for x in _val_reach(hg, [hg.entry], v, be, strict=strict_all)):
+                    continue
+                if all(be.eval(c, v) for c in comp.generators[0].ifs):
+                    got = True
+        return got
+
+    names = {'G': 'gather_all', 'command': 'command'}
+    sites = model_in(f, g, names, 'examples', (), False)
+    if sites:
+        return (lambda val: gathered_in(f, g, sites, names, (), val, False)), sites[0][1], len(sites)
+    # (c) one helper that is handed the collected examples
+    for n in g.nodes:
+        if n.kind != 'stmt' or n.dup:
+            continue
+        for c in node_calls(n):
+            if not any(is_name(a_, 'examples') for a_ in c.args):
+                continue
+            r = ctx.res.resolve_call(f, c)
+            if r[0] != 'repo' or len(r[1]) != 1 or r[1][0].module is not f.module or r[1][0].cls is not None:
+                continue
+            h = r[1][0]
+            hp = [a_.arg for a_ in h.node.args.posonlyargs + h.node.args.args]
+            bind = {}
+            for i, a_ in enumerate(c.args):
+                if i < len(hp):
+                    bind[hp[i]] = a_
+            for kw in c.keywords:
+                if kw.arg in hp:
+                    bind[kw.arg] = kw.value
+            inv = {v.id: k for k, v in bind.items() if isinstance(v, ast.Name)}
+            if 'examples' not in inv:
+                continue
+            hnames = {'G': inv.get('gather_all'), 'command': inv.get('command')}
+            need(hnames['G'] is not None and hnames['command'] is not None, 'C10.R5: the gathering helper %s is not handed gather_all and command by name' % h.name)
+            # parameters that keep an empty default at this call can hold no command
+            defaults = dict(zip(hp[len(hp) - len(h.node.args.defaults):], h.node.args.defaults))
+            false_names = tuple(p_ for p_, dv in defaults.items() if p_ not in bind and isinstance(dv, (ast.Tuple, ast.List, ast.Set)) and not dv.elts)
+            hg = ctx.cfg(h)
+            hs = model_in(h, hg, hnames, inv['examples'], false_names, True)
+            need(hs, 'C10.R5: no selection of examples recognised in helper %s' % h.name)
+            return (lambda val: gathered_in(h, hg, hs, hnames, false_names, val, True)), n, len(hs)
+    raise AnalysisError('C10.R5: how doctest_module selects the examples to run was not recognised (no loop, comprehension or helper over `examples`)')
+
+
 def r5_gathering(ctx):
     rep = ctx.rep
     f = ctx.func(DM)
     g = ctx.cfg(f)
     rd = ctx.rd(f)
-    apps = [n for n in g.nodes if n.kind == 'stmt' and not n.dup and any(isinstance(c.func, ast.Attribute) and c.func.attr == 'append' and is_name(c.func.value, 'enabled_examples') for c in node_calls(n))]
-    need(apps, 'C10.R5: enabled_examples.append not found')
-    # the gathering loop: the one over `examples`
-    gather = [a for a in apps if any(fr.kind == 'loop' and is_name(fr.stmt.iter, 'examples') for fr in a.frames)]
-    need(len(gather) == 1, 'C10.R5: gathering loop over `examples` not recognised')
-    a = gather[0]
-    head = [fr for fr in a.frames if fr.kind == 'loop'][-1].head
-    entry, cut = graph.region_of_loop(g, head)
-    ex = head.ast.target.id
-
-    def atom_of(e):
-        if is_name(e, 'gather_all'):
-            return ('G', True)
-        if isinstance(e, ast.Compare) and len(e.ops) == 1 and isinstance(e.ops[0], (ast.In, ast.NotIn)) and is_name(e.left, 'command') and \
-                isinstance(e.comparators[0], ast.Attribute) and e.comparators[0].attr == 'valid_testnames' and is_name(e.comparators[0].value, ex):
-            return ('N', isinstance(e.ops[0], ast.In))
-        if isinstance(e, ast.Call) and isinstance(e.func, ast.Attribute) and e.func.attr == 'is_disabled' and is_name(e.func.value, ex) and not e.args and not e.keywords:
-            return ('D', True)
-        return None
-    be = BoolEval(atom_of)
+    gathered, where, n_sites = _gathering_model(ctx, f, g)
+    rep.floor('C10.R5', 'selection sites over the collected examples', n_sites, 1)
+    a = where
     rows = []
     ok_all = True
     for G in (False, True):
         for N in (False, True):
             for D in (False, True):
                 val = {'G': G, 'N': N, 'D': D}
-
-                def ef(x, b, kind, tok):
-                    if kind != 'n':
-                        return False
-                    if b.kind == 'branch' and b.attrs['test'].kind == 'test':
-                        if be.eval(b.attrs['test'].ast, val) != b.attrs['polarity']:
-                            return False
-                    return True
-                reach = graph.reachable([entry], efilter=ef, stop=[head])
-                got = any(x is a for x in reach)
+                got = gathered(val)
                 spec = (G or N) and not (G and D)
                 rows.append({'all_or_dump': G, 'named': N, 'disabled': D, 'gathered': got})
                 if got != spec:
@@ -752,6 +893,11 @@ VARIANTS = [
     fire('disabled-run-under-all', 'C10.R5', (RN, "                if gather_all and example.is_disabled():\n                    continue\n", "")),
     fire('list-gathers-all', 'C10.R5', (RN, "    gather_all = (command == 'all' or command == 'dump')\n", "    gather_all = (command == 'all' or command == 'dump' or command == 'list')\n")),
     fire('passed-flag-wrong', 'C10.R1', (DE, "        passed = not failed and not skipped\n", "        passed = not failed\n")),
+    silent('gathering-as-comprehension', (RN, "        enabled_examples = []\n        for example in examples:\n            if gather_all or command in example.valid_testnames:\n                if gather_all and example.is_disabled():\n                    continue\n                enabled_examples.append(example)\n", "        enabled_examples = [example for example in examples if (gather_all or command in example.valid_testnames) and not (gather_all and example.is_disabled())]\n")),
+    fire('gathering-comprehension-drops-named-disabled', 'C10.R5', (RN, "        enabled_examples = []\n        for example in examples:\n            if gather_all or command in example.valid_testnames:\n                if gather_all and example.is_disabled():\n                    continue\n                enabled_examples.append(example)\n", "        enabled_examples = [example for example in examples if (gather_all or command in example.valid_testnames) and not example.is_disabled()]\n")),
+    silent('gathering-by-mode', (RN, "        enabled_examples = []\n        for example in examples:\n            if gather_all or command in example.valid_testnames:\n                if gather_all and example.is_disabled():\n                    continue\n                enabled_examples.append(example)\n", "        if gather_all:\n            enabled_examples = [example for example in examples if not example.is_disabled()]\n        else:\n            enabled_examples = [example for example in examples if command in example.valid_testnames]\n")),
+    fire('gathering-by-mode-swapped', 'C10.R5', (RN, "        enabled_examples = []\n        for example in examples:\n            if gather_all or command in example.valid_testnames:\n                if gather_all and example.is_disabled():\n                    continue\n                enabled_examples.append(example)\n", "        if not gather_all:\n            enabled_examples = [example for example in examples if not example.is_disabled()]\n        else:\n            enabled_examples = [example for example in examples if command in example.valid_testnames]\n")),
+    silent('gathering-with-selection-flag', (RN, "            if gather_all or command in example.valid_testnames:\n                if gather_all and example.is_disabled():\n                    continue\n                enabled_examples.append(example)\n", "            if gather_all:\n                is_selected = not example.is_disabled()\n            else:\n                is_selected = command in example.valid_testnames\n            if is_selected:\n                enabled_examples.append(example)\n")),
     silent('exit-status-tested-in-place', (MA, "    n_failed = run_summary.get('n_failed', 0)\n    if n_failed > 0:\n        return 1\n    else:\n        return 0\n", "    return 1 if run_summary.get('n_failed', 0) > 0 else 0\n")),
     fire('exit-status-tested-in-place-off-by-one', 'C10.R4', (MA, "    n_failed = run_summary.get('n_failed', 0)\n    if n_failed > 0:\n        return 1\n    else:\n        return 0\n", "    return 1 if run_summary.get('n_failed', 0) > 1 else 0\n")),
     silent('exit-status-int-of-comparison', (MA, "    if n_failed > 0:\n        return 1\n    else:\n        return 0\n", "    return int(n_failed > 0)\n")),
